@@ -113,7 +113,16 @@ def run_exhaustive(ctx, sau, spec):
 
 def gen_random(rng):
     n = int(rng.integers(1, 41))
-    style = int(rng.integers(0, 5))
+    style = int(rng.integers(0, 6))
+    if style == 5:
+        # unsigned integer arrays with integer queries (differences of unsigned values wrap around instead of going negative)
+        dt = [np.uint8, np.uint16, np.uint32, np.uint64][int(rng.integers(0, 4))]
+        top = min(int(np.iinfo(dt).max), 10 ** 6)
+        k = min(n, top // 3)
+        x = np.sort(rng.choice(np.arange(1, top, max(1, top // 400)), size=max(1, min(k, 200)), replace=False)).astype(dt)
+        qs = np.sort(rng.integers(0, top, int(rng.integers(1, 13))))
+        qs = qs.astype(dt) if rng.integers(0, 2) else qs.astype(np.int64)
+        return x, qs
     if style == 4:
         # int64 nanosecond timestamps: values beyond 2**53, gaps and query offsets below the float64 spacing there
         x = 1_700_000_000_000_000_000 + np.cumsum(rng.integers(1, 400, n)).astype(np.int64)
